@@ -355,7 +355,7 @@ fn main() {
     let a = args();
     let mut s = Session::new(&a, "C04", COQ_HEADER, COQ_CASE_TY, COQ_CHECKER);
     s.shard_size = 120;
-    s.rule = "finish-heavy histories: (a) a single bar on a 1/20/255 Hz target, 25-45 zero-gap ordinary updates (both limiters exhausted), then finish/finish_with_message/finish_and_clear/abandon/abandon_with_message/finish_using_style/drop with every stored ProgressFinish, more calls, then drop; (b) MultiProgress histories with bursts, finishes and drops of all bars in random order; (c) iterator-driven completion (ProgressBarIter::next recorded call by call); (d) terminals lower than the frames (H 1-6, W 2-8): the finishing draw must paint the fitting prefix, height-cut defects are classified by cause under their C19 class names; oracle: final state, the finishing call paints exactly the rendering of the final state, is_finished() afterwards, dropping a finished bar makes no call, kept bars stay in order (screen oracle); non-trivial = contains a finish/abandon/drop after at least 10 ops (iterator: at least 3 items); distinct = distinct case text".into();
+    s.rule = "finish-heavy histories: (a) a single bar on a 1/20/255 Hz target, 25-45 zero-gap ordinary updates (both limiters exhausted), then finish/finish_with_message/finish_and_clear/abandon/abandon_with_message/finish_using_style/drop with every stored ProgressFinish, more calls, then drop; (b) MultiProgress histories with bursts, finishes and drops of all bars in random order, one in five with MultiProgressAlignment::Bottom (histograms alignment:/W:/H:/bars: in the distribution); (c) iterator-driven completion (ProgressBarIter::next recorded call by call); (d) terminals lower than the frames (H 1-6, W 2-8): the finishing draw must paint the fitting prefix, height-cut defects are classified by cause under their C19 class names; oracle: final state, the finishing call paints exactly the rendering of the final state, is_finished() afterwards, dropping a finished bar makes no call, kept bars stay in order (screen oracle); non-trivial = contains a finish/abandon/drop after at least 10 ops (iterator: at least 3 items); distinct = distinct case text".into();
     let mut r = Rng::new(a.seed);
     let n = if a.thorough { 4000 } else if a.extended { 3000 } else { 500 };
     let mut cases = vec![];
@@ -369,9 +369,18 @@ fn main() {
             cfg.w_struct = 20;
             cfg.bursts = true;
             cfg.hz = *r.pick(&[None, Some(1u8), Some(20)]);
-            cfg.bottom = i % 5 == 1; // a fraction with MultiProgressAlignment::Bottom (see run_bottom_cases)
             cfg.max_ops = 40;
-            cases.push(gen_multi_case(&mut r, &cfg));
+            // one MultiProgress history in five runs with MultiProgressAlignment::Bottom (switched on
+            // after the first few calls; the generator may switch back and forth later)
+            let bottom = i % 10 == 1;
+            cfg.bottom = bottom;
+            let mut c = gen_multi_case(&mut r, &cfg);
+            if bottom {
+                let at = (r.range(1, 4) as usize).min(c.ops.len());
+                let t = if at == 0 { 0 } else { c.ops[at - 1].0 };
+                c.ops.insert(at, (t, Op::SetAlign(true)));
+            }
+            cases.push(c);
         }
     }
     for case in &cases {
@@ -383,7 +392,8 @@ fn main() {
     };
     let (bottom_cases, top_cases): (Vec<Case>, Vec<Case>) =
         cases.into_iter().partition(|c| c.ops.iter().any(|(_, o)| matches!(o, Op::SetAlign(true))));
-    s.count_n("cases_with_bottom_alignment", bottom_cases.len() as u64);
+    s.count_n("alignment:bottom(histories that switch to Bottom)", bottom_cases.len() as u64);
+    s.count_n("alignment:top-only", top_cases.len() as u64);
     run_sys_cases(&mut s, &top_cases, &nontrivial);
     // the screen oracle classifies the recorded open finding D22 (bottom alignment, padded frame,
     // visibly finished member reaped at the head) as 'bottom-alignment-kept-rows-misplaced' itself
@@ -412,6 +422,8 @@ fn main() {
             s.fail("not-finished-after-finish", "is_finished() is false after the iterator returned None".into(), desc.clone());
         }
         s.count("iterator_runs");
+        s.count(&format!("W:{}", case.w));
+        s.count(&format!("H:{}", case.h));
         s.count_n("iterator_items", case.ops.iter().filter(|(_, o)| matches!(o, Op::Inc(..))).count() as u64);
         let nt = case.ops.len() >= 5;
         s.case(coq_case(&case, &obs), desc, nt);
